@@ -170,7 +170,8 @@ TG_TIERS = (
 
 
 def _check_merge_tiers(case):
-    order, names, preserve = case
+    order, names, preserve = case[:3]
+    form = case[3] if len(case) > 3 else "list"  # the FORM of the selection: list, tuple, one-shot iterator, generator
     tiers = [TG_TIERS[i] for i in order]
     tg = Textgrid(0.0, 5.0)
     objs = {}
@@ -178,7 +179,8 @@ def _check_merge_tiers(case):
         objs[name] = (IT if kind == "I" else PT)(name, list(entries), 0.0, 5.0)
         tg.addTier(objs[name])
     sel = None if names is None else list(names)
-    st, r, _ = call(tg.mergeTiers, sel, preserve)
+    arg = sel if sel is None or form == "list" else (tuple(sel) if form == "tuple" else (iter(list(sel)) if form == "iter" else (n_ for n_ in list(sel))))
+    st, r, _ = call(tg.mergeTiers, arg, preserve)
     tag = f"mergeTiers({sel},{preserve}) on tiers {[t[1] for t in tiers]}"
     if st == "exc":
         return 1, "X", None, [Viol("mergeTiers-raised:" + type(r).__name__, f"{tag}: {r!r}")]
@@ -355,10 +357,14 @@ def parts(tier):
                 for sub in itertools.permutations(names, k) if k <= 2 else itertools.combinations(names, k):
                     for preserve in (True, False):
                         yield (order, tuple(sub), preserve)
+                    if k:
+                        yield (order, tuple(sub), True, "tuple")
+                        for form in ("tuple", "iter", "gen"):
+                            yield (order, tuple(sub), False, form)
 
     ps.append(InputPart("mergeTiers", gen_merge, _check_merge_tiers,
-                        rule="textgrids of 1-5 tiers in several orders x every subset (and ordered pair) of tier names x "
-                             "preserveOtherTiers: result = preserved tiers in order, then the left fold of union over the "
+                        rule="textgrids of 1-5 tiers in several orders x every subset (and ordered pair) of tier names (as list, tuple, one-shot iterator, "
+                             "generator) x preserveOtherTiers: result = preserved tiers in order, then the left fold of union over the "
                              "selected interval tiers, then over the selected point tiers", bounds={}))
 
     # history independence of the operations of this property (shared battery, see mc/props/live.py)
